@@ -175,8 +175,8 @@ def _replay_s3(m):
     who = ['fowner', 'bob', 'creator'][ch['sender']]      # the contract owner of the native setup is `creator`
     denom = ['uusd', 'uom'][ch['denom']]
     return {'now_s': m['now_s'], 'farms': [('m-x', 'fowner', LP1, 'uusd', m['funded'], m['claimed'], m['rate'], m['cur_start'], m['cur_end'])],
-            'mints': [(who, [(denom, m['expand'])])],
-            'txs': [(who, _farm_msg('expand', params=_params_json(denom, m['expand'], ident='m-x')), [(denom, m['expand'])])]}
+            'mints': [(who, [(denom, m['attached'])])],
+            'txs': [(who, _farm_msg('expand', params=_params_json(denom, m['expand'], ident='m-x')), [(denom, m['attached'])])]}
 
 
 def _replay_s4(m):
@@ -251,7 +251,7 @@ def s2(I):
 
 @obligation('C11', 'S3.expand_farm', entries=['execute', 'expand_farm', 'is_farm_expired'], kind='S',
             statement='expand: only the farm owner, only while current epoch < end and not expired, only the same reward denom, only multiples of the emission rate; '
-                      'budget += attached amount, end += amount/rate; nothing else changes',
+                      'the declared amount equals the attached coin; budget += attached amount, end += attached/rate; nothing else changes',
             bounds='amounts full u128, sender in {owner, stranger, contract owner}, reward denom same/other', covers=['ok', 'rejected'],
             replay=fm_replay(lambda m: _replay_s3(m)))
 def s3(I):
@@ -266,13 +266,14 @@ def s3(I):
     cend = I.sym('cur_end', lo=2, hi=10 ** 9 + 100)
     I.assume(cstart < cend)
     put_farm(I, farm('m-x', 'fowner', LP1, 'uusd', funded, claimed, rate, cstart, cend))
-    add = I.sym('expand', lo=1, hi=U128)
+    decl = I.sym('expand', lo=1, hi=U128)          # the amount DECLARED in the message
+    add = I.sym('attached', lo=1, hi=U128)         # the coin actually attached
     who = ['fowner', 'bob', 'creator'][I.choose(3, 'sender')]
     denom = ['uusd', 'uom'][I.choose(2, 'denom')]
     b.set(who, denom, add)
     ch = Chain(I, CONTRACTS_FM)
     pre = b.snapshot()
-    st, resp = ch.execute(who, FM, manage_farm('Expand', params=farm_params(LP1, coin_v(denom, add), ident='m-x')), [coin_v(denom, add)])
+    st, resp = ch.execute(who, FM, manage_farm('Expand', params=farm_params(LP1, coin_v(denom, decl), ident='m-x')), [coin_v(denom, add)])
     I.observe('status', 'ok' if st == 'ok' else 'err')
     observe_farm(I, 'm-x')
     observe_balances(I, b, [(FM, 'uusd'), (FM, 'uom'), (who, denom)])
@@ -286,6 +287,7 @@ def s3(I):
     I.check('only_before_end', ep < cend)
     I.check('only_unclaimed_farms', claimed < funded)
     I.check('only_multiples_of_rate', smt.Eq(I.ctx.fmod(add, rate), 0))
+    I.check('declared_amount_is_the_attached_amount', smt.Eq(decl, add))
     I.check('budget_grows_by_funds', smt.Eq(f.get('farm_asset').get('amount'), funded + add))
     I.check('end_extends_by_amount_over_rate', smt.Eq(f.get('preliminary_end_epoch'), cend + I.ctx.fdiv(add, rate)))
     I.check('rest_unchanged', smt.And(smt.Eq(f.get('claimed_amount'), claimed), smt.Eq(f.get('emission_rate'), rate), smt.Eq(f.get('start_epoch'), cstart),
